@@ -67,15 +67,32 @@ def dosage_step_options(labels: A[i1, 2]) -> A[i1, 3]:
     ensures(forall(lambda i, h: implies(0 <= i and i < len(result) and 0 <= h and h < len(labels), 0 <= result[i, h, 0] and result[i, h, 0] < len(labels))))
 
 
+@spec_abstract
+def RNOPT(labels: A[int, 2], P: int) -> int:
+    """number of recombination options of a label matrix (abstract: the result of the assumed helper)"""
+
+
+@spec_abstract
+def DNOPT(labels: A[int, 2], P: int) -> int:
+    """number of dosage-swap options of a label matrix (abstract: the result of the assumed helper)"""
+
+
 @contract("mchap.assemble.structural.recombination_step_n_options", trusted=True, props=["C01", "C09"])
 def recombination_step_n_options(labels: A[i1, 2]) -> int:
     # at least one way back: called on an option produced from the current labels
-    ensures(result >= 1, result <= 2 ** 20)
+    ensures(result >= 1, result <= 2 ** 20, result == RNOPT(labels, len(labels)))
 
 
 @contract("mchap.assemble.structural.dosage_step_n_options", trusted=True, props=["C01", "C09"])
 def dosage_step_n_options(labels: A[i1, 2]) -> int:
-    ensures(result >= 1, result <= 2 ** 20)
+    ensures(result >= 1, result <= 2 ** 20, result == DNOPT(labels, len(labels)))
+
+
+@spec
+def SMHLOG(llk_a: float, llk0: float, lp_a: float, lp0: float, temp: float, nret: int, nopt: int) -> float:
+    """C01: log Metropolis-Hastings acceptance of one structural proposal at inverse temperature temp:
+    min(0, temp * (log-likelihood ratio + log-prior ratio) + log(proposal probability back / proposal probability there))"""
+    return min(0.0, ((llk_a - llk0) + (lp_a - lp0)) * temp + (real(log(1 / nret)) - real(log(1 / nopt))))
 
 
 @contract("mchap.assemble.structural.interval_step", machine_ints=True, props=["C09", "C01"], opt_result={"1": "cache"}, ghost_params={"NA": "A[int, 1]"}, dead_branches=["if step_type == 1 @4 else"])
@@ -110,14 +127,26 @@ def interval_step(genotype: A[i1, 2], reads: A[f8, 3], llk: float, log_unique_ha
         invariant(forall(0, i, lambda a: llks[a] == LLK(reads, CN, arr2(lambda x, y: SCE(old(genotype), option_labels[a, :, 0], LO, HI, x, y)), P, N, len(reads))))
         invariant(forall(0, i, lambda a: not isnan(log_accept[a]) and implies(not isninf(log_accept[a]), log_accept[a] <= 0)))
         invariant(isninf(log_accept[n_options]), not isnan(log_accept[n_options]))
+        # C01: the Metropolis-Hastings log acceptance of every proposal (prior of a proposal = prior of its label matrix)
+        invariant(lprior == GPRIOR(old(genotype), P, N, log_unique_haplotypes, inbreeding), finite(lprior), log_proposal_prob == log(1 / n_options))
+        invariant(forall(0, i, lambda a: log_accept[a] == SMHLOG(real(llks[a]), real(llk), GPRIOR(option_labels[a], P, 2, log_unique_haplotypes, inbreeding), lprior, temp, ite(step_type == 0, RNOPT(option_labels[a], P), DNOPT(option_labels[a], P)), n_options)))
         invariant(implies(cache is not None, AMOK(cache, len(cache[0]), cache[0].shape[1], len(cache[1])) and cache[2] == P * N and forall(0, N, lambda y: NA[y] <= cache[0].shape[1])))
         invariant(implies(cache is not None, COH(cache, reads, CN, P, N, len(reads))))
         with head():
+            unfold(SMHLOG(real(LLK(reads, CN, arr2(lambda x, y: SCE(old(genotype), option_labels[i, :, 0], LO, HI, x, y)), P, N, len(reads))), real(llk), GPRIOR(option_labels[i], P, 2, log_unique_haplotypes, inbreeding), lprior, temp, ite(step_type == 0, RNOPT(option_labels[i], P), DNOPT(option_labels[i], P)), n_options))
             GPI = arr2(lambda x, y: SCE(genotype, option_labels[i, :, 0], LO, HI, x, y))
             assert_(VALIDG(GPI, NA, P, N))
             instantiate(POSREADS(reads, CN, NA, P, N, len(reads)), GPI)
             instantiate(POSREADS(reads, CN, NA, P, N, len(reads)), genotype)
+    with after_call("log_genotype_prior", 0):
+        unfold(GPRIOR(old(genotype), P, N, log_unique_haplotypes, inbreeding))
+        lemma_laprior_ext(dosage, arr1(lambda q: DOSE(old(genotype), q, 0, N, P)), P, log_unique_haplotypes, inbreeding)
+    with after_call("log_genotype_prior", 1):
+        unfold(GPRIOR(option_labels[i], P, 2, log_unique_haplotypes, inbreeding))
+        lemma_laprior_ext(dosage, arr1(lambda q: DOSE(option_labels[i], q, 0, 2, P)), P, log_unique_haplotypes, inbreeding)
     with before_stmt("probabilities[-1] = 1 - probabilities.sum()"):
+        # C01: the vector handed to the sampler is proposal probability x Metropolis-Hastings acceptance of every option
+        assert_(forall(0, n_options, lambda a: probabilities[a] == exp(SMHLOG(real(llks[a]), real(llk), GPRIOR(option_labels[a], P, 2, log_unique_haplotypes, inbreeding), lprior, temp, ite(step_type == 0, RNOPT(option_labels[a], P), DNOPT(option_labels[a], P)), n_options) - real(log(n_options)))))
         PB = val(probabilities)
         ax_exp_mono_all()
         lemma_exp_neg_log(n_options)
